@@ -643,6 +643,15 @@ def _extract_case(spec):
         n = sum(sum(c.values()) for c in lex.values())
         if n != spec.n():
             return 'lexicon counts sum to %d, %d tokens' % (n, spec.n())
+        fan, expfan = {}, {}
+        for func in g:
+            for lin in g[func]:
+                k = (func[0], len(lin))
+                fan[k] = fan.get(k, 0) + sum(g[func][lin].values())
+        for (lab, _, _), gd_ in zip(spec.cons, spec.gap_degrees()):
+            expfan[(lab, gd_ + 1)] = expfan.get((lab, gd_ + 1), 0) + 1
+        if fan != expfan:
+            return 'rules per (label, fan-out) %r, nodes per (label, number of blocks) %r' % (sorted(fan.items())[:6], sorted(expfan.items())[:6])
         ranks = sorted(len(f) - 1 for f in g)
         kids = sorted(len(k) for k in spec.kids())
         if sorted(set(ranks)) != sorted(set(kids)):
@@ -654,11 +663,11 @@ def _extract_case(spec):
 def p_c06(cx):
     if cx.part == 'deep':
         # extraction is cubic in the depth: about a minute for this one probe, in a chunk of its own
-        spec = deep_chain(540, True)
-        cx.case(spec.name, 'extract: counts per label, lexicon, ranks', _extract_case(spec))
+        spec = deep_chain(520, True)
+        cx.case(spec.name, 'extract: counts per label, fan-outs, lexicon, ranks', _extract_case(spec))
         return
     for spec in (long_gap(), long_cont(), wide(), many_cons(), deep_chain(200, False)):
-        cx.case(spec.name, 'extract: counts per label, lexicon, ranks', _extract_case(spec))
+        cx.case(spec.name, 'extract: counts per label, fan-outs, lexicon, ranks', _extract_case(spec))
 
 
 def _binarize_case(spec, kw, name):
